@@ -275,6 +275,33 @@ def reportedLine (fmt : Fmt) (strLineno : Nat) (doc : List Char) (linenumber : I
     (c : Construct) : Line :=
   reportedLineB docutilsBase fmt strLineno doc linenumber isModule c
 
+/-! ### inherited docstrings: which object a problem is reported on
+
+`parse_docstring(obj, doc, source)`: `obj` is the object being documented, `source` the object the
+docstring was written on (`model.get_docstring` walks `docsources()`; they differ when a method or
+attribute without docstring overrides a documented one).  Everything about the docstring is reported
+on `source`: `reportErrors(source, errs)`, `Field.source = source` (`Field.report`), and
+`format_docstring` renders with `source.docstring_linker`, whose `reporting_obj` is `source`.  The
+file name printed is `source.description`, the line base `source.docstring_lineno`. -/
+
+structure Located where
+  file : Nat          -- identity of the module file (`Documentable.description`)
+  obj : Obj
+  deriving Repr, Inhabited
+
+/-- the object the report is made on -/
+def reportTarget (source _obj : Located) : Located := source
+
+/-- file and line printed when `_obj` shows the docstring written on `source` -/
+def reportInherited (source obj : Located) (sec : Sec) (off : Int) : Nat × Line :=
+  ((reportTarget source obj).file, report (reportTarget source obj).obj sec off)
+
+/-- the same for a planted construct of the source's literal -/
+def reportedAt (fmt : Fmt) (strLineno : Nat) (doc : List Char) (source obj : Located) (c : Construct) :
+    Nat × Line :=
+  reportInherited ⟨source.file, docObj strLineno doc source.obj.linenumber source.obj.isModule⟩ obj
+    (secOf c.cls) (constructOffset fmt c.cls ((c.raw : Int) - (dropped doc : Nat)) c.j)
+
 /-- which planted constructs are reported: an epytext docstring with a (fatal) markup error is
 re-parsed as plain text, so only its errors are reported -/
 def reportedConstructs (fmt : Fmt) (cs : List Construct) : List Construct :=
